@@ -26,10 +26,11 @@ def make_cases(tier, rng):
         for o in ["accept_first", "dial_first"]:
             add("process", [g.est(rng, d, o, gap=rng.choice([0, 1000])), g.est(rng, d, o, gap=0, keep=True), g.est(rng, gap=50)], "grid")
     # schedules inside one establishment: hold the goroutine at a hook point while the other side runs on
-    gates = GATES if tier == "thorough" else [GATES[0]] + rng.sample(GATES[1:], 5)
-    for gate, who in gates:
+    # (every hook point in both tiers; a hold on the dialer's side is most telling when the accept is already
+    # there, one on the acceptor's side when the dial is)
+    for gate, who in GATES:
         for d in ["h2p", "p2h"]:
-            for o in (["accept_first", "dial_first"] if tier == "thorough" or gate == GATES[0][0] else [rng.choice(["accept_first", "dial_first"])]):
+            for o in (["accept_first", "dial_first"] if tier == "thorough" or gate == GATES[0][0] else ["accept_first" if who == "D" else rng.choice(["accept_first", "dial_first"])]):
                 ests = [g.est(rng, d, o, gap=rng.choice([0, 300])), g.est(rng, d, rng.choice(["accept_first", "dial_first"]), gap=0)]
                 add("inproc", ests, "hold:" + gate, hold={"gate": gate, "side": "", "ms": rng.choice([150, 400])})
     # an unmatched dial, then correctly established connections
